@@ -104,10 +104,17 @@ def gen_cases(rng, tier):
                     c["resp"]["assertions"][0]["authn"] = []
                 c["tag"] = "attr:%s@%s/skew=%s" % (stamp, off, skew)
                 yield c
+    # further fractional-second syntaxes (1, 6, 7 and 9 digits, all zeros) on every timestamp at the deciding offsets
+    for syntax in ("frac1", "frac6", "frac7", "frac9", "frac0s"):
+        for stamp in STAMPS:
+            for off in (-3600, -61, -59, 1, 59, 61, 3600):
+                c = place(fresh(60, syntax), stamp, off)
+                c["tag"] = "%s@%s/skew=60/%s" % (stamp, off, syntax)
+                yield c
     n = 400 if tier == "quick" else 6000
     for _ in range(n):
         skew = rng.choice([None, 0, 60, 180, 7])
-        c = fresh(skew, rng.choice(["z", "frac"]))
+        c = fresh(skew, rng.choice(["z", "frac", "frac7", "frac9"]))
         for stamp in rng.sample(STAMPS, rng.randint(2, 4)):
             place(c, stamp, rng.choice(offsets(skew)))
         if rng.random() < 0.2:
